@@ -330,3 +330,225 @@ func TestIpBlacklist(t *testing.T) {
 		Quick: 30, Thorough: 45,
 	})
 }
+
+// ---- ip blacklist: histories of adds for the same address ---------------------------
+
+// Sub-property "ip-blacklist-history": the same address is black-listed more than once (while the first
+// entry is still active, or after it expired without any HLS request in between — a request is lal's only
+// sweeper of the table), a second address shares the table.  Reference model: map address -> expiry of the
+// LATEST add (real time of the add + duration), plus the maximum over all adds.
+//
+// Judged: a probe whose response was complete before the latest add's expiry must get no HLS content (the
+// readings "the latest add defines the expiry" and "the longest one does" agree on that); a probe sent 2.5 s
+// after the maximum expiry must be served.  Anything in between is not judged.
+type BlStep struct {
+	Op   string `json:"op"`             // add | sleep | probe
+	Addr int    `json:"addr,omitempty"` // 0 | 1: which of the two client addresses
+	N    int    `json:"n,omitempty"`    // add: duration in seconds; sleep: milliseconds
+}
+
+type BlHistCase struct {
+	Addrs   []int    `json:"addrs"` // two distinct last octets of 127.0.0.x
+	Target  int      `json:"target"`
+	Pattern string   `json:"pattern"`
+	Steps   []BlStep `json:"steps"`
+}
+
+func genBlHist(t *rapid.T) BlHistCase {
+	a := rapid.IntRange(2, 120).Draw(t, "addr0")
+	c := BlHistCase{Addrs: []int{a, a + rapid.IntRange(1, 120).Draw(t, "addr1")}, Target: rapid.IntRange(0, 3).Draw(t, "target")}
+	c.Pattern = rapid.SampledFrom([]string{"extend-active", "extend-active", "extend-active", "readd-after-silent-expiry", "readd-after-silent-expiry", "readd-after-silent-expiry",
+		"shorter-after-longer", "readd-same", "other-address-in-between"}).Draw(t, "pattern")
+	long := rapid.SampledFrom([]int{30, 3600}).Draw(t, "long")
+	short := 1
+	if pbt.Thorough() {
+		short = rapid.IntRange(1, 2).Draw(t, "short")
+	}
+	other := rapid.Bool().Draw(t, "other")
+	probeEarly := rapid.Bool().Draw(t, "probeEarly")
+	add := func(addr, d int) { c.Steps = append(c.Steps, BlStep{Op: "add", Addr: addr, N: d}) }
+	probe := func(addr int) { c.Steps = append(c.Steps, BlStep{Op: "probe", Addr: addr}) }
+	sleep := func(ms int) { c.Steps = append(c.Steps, BlStep{Op: "sleep", N: ms}) }
+	if other {
+		add(1, long)
+	}
+	switch c.Pattern {
+	case "extend-active":
+		// short entry, extended while active; probed after the short one would have lapsed
+		add(0, short)
+		if probeEarly {
+			probe(0)
+		}
+		add(0, long)
+		sleep(short*1000 + 1150)
+		probe(0)
+	case "readd-after-silent-expiry":
+		// the short entry lapses with no HLS request (nothing sweeps the table), then the address is listed again
+		add(0, short)
+		sleep(short*1000 + 1150)
+		add(0, long)
+		probe(0)
+	case "shorter-after-longer":
+		add(0, long)
+		add(0, short)
+		probe(0)
+	case "readd-same":
+		add(0, long)
+		probe(0)
+		add(0, long)
+		probe(0)
+	default:
+		add(0, long)
+		add(1, short)
+		probe(0)
+		probe(1)
+		add(1, long)
+		probe(1)
+		probe(0)
+	}
+	if other {
+		probe(1)
+	}
+	return c
+}
+
+func runBlHist(c BlHistCase) *pbt.Violation {
+	const stream = "c14blh"
+	if len(c.Addrs) != 2 || c.Addrs[0] == c.Addrs[1] {
+		panic(pbt.HarnessError{Msg: "two distinct addresses needed"})
+	}
+	total := 0
+	for _, st := range c.Steps {
+		if st.Op == "sleep" {
+			total += st.N
+		}
+	}
+	if total > 8000 {
+		panic(pbt.HarnessError{Msg: "history sleeps too long"})
+	}
+	l3mu.Lock()
+	defer l3mu.Unlock()
+	x := newL3(inproc.Config{HlsFragmentMs: 1000}, nil)
+	defer x.Close()
+	feeder := lalclient.NewPublisher(x.Server, "live", stream, 0)
+	if feeder.Err != nil {
+		return inconclusive("blh-feeder")
+	}
+	publishHls(feeder, 4, 1)
+	dir := filepath.Join(x.Cfg.HlsConfig.OutPath, stream)
+	if !waitFile(filepath.Join(dir, "playlist.m3u8")) {
+		return inconclusive("blh-playlist-not-written")
+	}
+	target := "/hls/" + stream
+	switch c.Target {
+	case 0:
+		target += ".m3u8"
+	case 1:
+		target += "/playlist.m3u8"
+	case 2:
+		target += "/record.m3u8"
+	default:
+		ents, _ := os.ReadDir(dir)
+		var segs []string
+		for _, e := range ents {
+			if strings.HasSuffix(e.Name(), ".ts") {
+				segs = append(segs, e.Name())
+			}
+		}
+		sort.Strings(segs)
+		if len(segs) == 0 {
+			return inconclusive("blh-no-segment")
+		}
+		target += "/" + segs[0]
+	}
+	ips := []string{fmt.Sprintf("127.0.0.%d", c.Addrs[0]), fmt.Sprintf("127.0.0.%d", c.Addrs[1])}
+	for _, ip := range ips {
+		pre, err := rawGet(x.HlsAddr, ip, target)
+		if err != nil || !hlsContent(pre.Body) {
+			return inconclusive("blh-precondition")
+		}
+	}
+	// reference model
+	type entry struct {
+		latest, max time.Time
+		listed      bool
+		log         []string
+	}
+	model := []*entry{{}, {}}
+	for i, st := range c.Steps {
+		switch st.Op {
+		case "sleep":
+			time.Sleep(time.Duration(st.N) * time.Millisecond)
+		case "add":
+			e := model[st.Addr%2]
+			var resp base.ApiCtrlAddIpBlacklistResp
+			before := time.Now()
+			x.Call("CtrlAddIpBlacklist", func() {
+				resp = x.SM.CtrlAddIpBlacklist(base.ApiCtrlAddIpBlacklistReq{Ip: ips[st.Addr%2], DurationSec: st.N})
+			})
+			if resp.ErrorCode != base.ErrorCodeSucc {
+				return inconclusive("blh-add-failed")
+			}
+			// the add took effect somewhere between before and now: the earlier instant gives the earlier (safe) expiry
+			e.latest = before.Add(time.Duration(st.N) * time.Second)
+			after := time.Now().Add(time.Duration(st.N) * time.Second)
+			if after.After(e.max) {
+				e.max = after
+			}
+			e.listed = true
+			e.log = append(e.log, fmt.Sprintf("step %d: add %d s at %s", i, st.N, before.Format("15:04:05.000")))
+		case "probe":
+			e := model[st.Addr%2]
+			ip := ips[st.Addr%2]
+			sent := time.Now()
+			r, err := rawGet(x.HlsAddr, ip, target)
+			if err != nil {
+				if e.listed && sent.After(e.max.Add(2500*time.Millisecond)) && !isTimeout(err) && !isDialError(err) {
+					return pbt.V("blacklist/still-blocked-after-expiry", "history %v: GET %s from %s sent 2.5 s after every entry expired failed: %v", e.log, target, ip, err)
+				}
+				continue
+			}
+			got := hlsContent(r.Body)
+			switch {
+			case e.listed && got && r.At.Before(e.latest):
+				return pbt.V("blacklist/blocked-address-served", "address %s, history %v; step %d: GET %s completed at %s, before the expiry of the latest add (%s), with status %d and %d bytes of HLS content [pattern %s]",
+					ip, e.log, i, target, r.At.Format("15:04:05.000"), e.latest.Format("15:04:05.000"), r.Status, len(r.Body), c.Pattern)
+			case e.listed && !got && sent.After(e.max.Add(2500*time.Millisecond)):
+				return pbt.V("blacklist/still-blocked-after-expiry", "address %s, history %v; step %d: GET %s sent at %s, 2.5 s after every entry expired (%s), is answered %d without HLS content", ip, e.log, i, target,
+					sent.Format("15:04:05.000"), e.max.Format("15:04:05.000"), r.Status)
+			case !e.listed && !got:
+				// never listed: only counted (the property does not speak about other addresses)
+				pbt.Count("c14_blh_unlisted_address_not_served", 1)
+			}
+		default:
+			panic(pbt.HarnessError{Msg: "bad step " + st.Op})
+		}
+	}
+	return x.PanicViolation()
+}
+
+func classifyBlHist(c BlHistCase) (bool, []string) {
+	adds := map[int]int{}
+	slept := false
+	for _, st := range c.Steps {
+		if st.Op == "add" {
+			adds[st.Addr%2]++
+		}
+		if st.Op == "sleep" {
+			slept = true
+		}
+	}
+	two := "one-address"
+	if len(adds) == 2 {
+		two = "two-addresses"
+	}
+	tg := []string{"name.m3u8", "playlist.m3u8", "record.m3u8", "segment.ts"}[c.Target%4]
+	return adds[0] > 1 || adds[1] > 1, []string{"pattern:" + c.Pattern, "table:" + two, "target:" + tg, fmt.Sprintf("real-wait:%v", slept)}
+}
+
+func TestIpBlacklistHistory(t *testing.T) {
+	pbt.Run(t, pbt.Spec[BlHistCase]{
+		ID: "C14", Name: "ip-blacklist-history", Gen: genBlHist, Run: runBlHist, Classify: classifyBlHist,
+		Quick: 6, Thorough: 30,
+	})
+}
